@@ -33,7 +33,7 @@ def const_strings(body):
     return out
 
 
-def ids(ctx, report, rule, facts, config):
+def ids(ctx, report, rule, facts, config, rejected_leaves_map=False):
     """C02.IDS: add() draws one fresh id, resolves every dependency name
     through the map before its own name is entered, and gives the same id to
     the map and to insert."""
@@ -77,6 +77,23 @@ def ids(ctx, report, rule, facts, config):
         for e in ent:
             if col and p.blocks.index(col[0][1]) > p.blocks.index(e[1]):
                 problems.append("the name map is modified before the dependencies are resolved")
+    # a registration that is rejected (panics) must leave the name map as it was: every change of the
+    # map lies on a path that goes on to place the system under the same id
+    for p in (enumerate_paths(add, facts) if rejected_leaves_map else []):
+        muts = []
+        for e in p.calls():
+            c = e[2]
+            if c.local or not e[3]:
+                continue
+            if c.name == "insert" and "VacantEntry" in c.path:
+                muts.append(e)
+            elif c.name in ("insert", "remove", "clear", "retain", "extend", "drain") and ("HashMap" in c.path or "AHashMap" in c.path):
+                f_, i_, base = S.table_access(add, e[3][0])
+                if S.crate_fields(f_)[-1:] == [(A.DB, "map")]:
+                    muts.append(e)
+        placed = [e for e in p.calls() if e[2].name == "insert" and e[2].self_head == A.SB]
+        if muts and (p.end != "return" or len(placed) != 1):
+            problems.append("the name map is changed by `%s` on a path that does not place the system (a rejected registration leaves a stale name: the printed plan no longer matches what runs)" % muts[0][2].name)
     report.ob(rule, "add/ids", not problems and len(paths) >= 2, "; ".join(sorted(set(problems))) if problems else
               "one fresh id per call, dependencies resolved first, same id for the name map and the placement (%d paths)" % len(paths), site=add.loc(), config=config)
     # the lookup closure: map.get(name) on the captured map
